@@ -508,12 +508,13 @@ class CircuitUnitaryCount(MetricBase):
         n_u = 0
         for label in [
             "SigmaX",
-            "SigmaX",
-            "SigmaX",
+            "SigmaY",
+            "SigmaZ",
             "Phase",
             "PhaseDagger",
             "Hadamard",
             "CNOT",
+            "CZ",
         ]:
             if label in circuit.node_dict:
                 n_u += len(circuit.get_node_by_labels([label]))
